@@ -28,11 +28,30 @@ class DataStub:
     name is evaluated from its parameters, recursively; a name that is neither
     present nor produced raises KeyError(name)."""
 
-    def __init__(self, coords, unaligned=()):
+    def __init__(self, coords, unaligned=(), _root=None):
         # name -> coordinate; alignment is a flag of the coordinate and must play no role in what is derivable
         self.coords = {c: CoordStub(c not in unaligned) for c in sorted(coords)}
         self.used: list[str] = []
         self.graph_used = None
+        # copies and reduced views made by the package report to the object that was supplied
+        self.root = _root if _root is not None else self
+        if _root is None:
+            self.supplied = set(coords)
+            self.recomputed: set = set()
+
+    def _derived(self, coords):
+        d = DataStub(coords, [c for c, v in self.coords.items() if not v.aligned and c in coords], _root=self.root)
+        return d
+
+    def copy(self, deep=True):
+        return self._derived(set(self.coords))
+
+    def drop_coords(self, names):
+        names = [names] if isinstance(names, str) else list(names)
+        missing = [n for n in names if n not in self.coords]
+        if missing:
+            raise RaiseSignal('KeyError', None, 'DataArray.drop_coords (model)', (missing[0],))
+        return self._derived(set(self.coords) - set(names))
 
     def transform_coords(self, target, graph=None, **kw):
         if not isinstance(graph, dict):
@@ -58,6 +77,11 @@ class DataStub:
             raise RaiseSignal('KeyError', None, 'scipp.transform_coords (model)', (name,))
 
         go(target, frozenset())
+        # a coordinate the caller supplied must be used as it is, never recomputed from others
+        self.root.recomputed |= done & self.root.supplied
+        self.root.used.extend(u for u in self.used if self is not self.root)
+        if self.root.graph_used is None:
+            self.root.graph_used = graph
         return ('converted', target)
 
 
@@ -205,7 +229,10 @@ def eval_triple(repo, it, triple, tier):
                 continue
             got_ok = o.kind == 'return'
             # R5
-            if got_ok != want_ok:
+            if got_ok and data.recomputed:
+                bad5.append({'coords': sorted(sub), 'problem': 'a supplied coordinate does not take precedence: it is recomputed from other coordinates',
+                             'recomputed': sorted(data.recomputed)})
+            elif got_ok != want_ok:
                 bad5.append({'coords': sorted(sub), 'convert': 'returns' if got_ok else 'RuntimeError', 'documented': 'derivable' if want_ok else f'not derivable (missing {miss})', 'mode': mode})
             elif not got_ok and mode != 'error':
                 msg = ' '.join(str(a) for a in getattr(o, 'exc_args', ()))
